@@ -40,5 +40,9 @@ package crdt
 //@   loop 4 invariant never-behind-the-receiver: merged != nil && merged.clock != nil && forall n string :: clk(merged.clock, n) >= clk(s.clock, n)
 //@   loop 5 invariant never-behind-the-receiver: merged != nil && merged.clock != nil && forall n string :: clk(merged.clock, n) >= clk(s.clock, n)
 //@   loop 6 invariant never-behind-the-receiver: merged != nil && merged.clock != nil && forall n string :: clk(merged.clock, n) >= clk(s.clock, n)
+//@   loop 4 invariant dots-of-the-inputs-untouched: old_objects_unchanged([]dot)
+//@   loop 5 invariant dots-of-the-inputs-untouched: old_objects_unchanged([]dot) && (cap(kept) == 0 || fresh(kept))
+//@   loop 6 invariant dots-of-the-inputs-untouched: old_objects_unchanged([]dot) && (cap(kept) == 0 || fresh(kept))
+//@   ensures dots-of-the-inputs-untouched: old_objects_unchanged([]dot)
 //@   ensures merged-clock-never-behind-the-receiver: is(other, *ORSet) ==> forall n string :: clk(result.(*ORSet).clock, n) >= clk(s.clock, n)
 //@   ensures clocks-of-the-inputs-untouched: is(other, *ORSet) ==> forall n string :: clk(s.clock, n) == old(clk(s.clock, n)) && clk(other.(*ORSet).clock, n) == old(clk(other.(*ORSet).clock, n))
